@@ -7,6 +7,11 @@ Part F (fault isolation): a victim flow with a bad expression / pattern injected
 position x how the victim is started x all short event histories, driven through the real
 `RuntimeV2_x.process_events`; a bystander flow in its own interaction loop must still react to the
 same and to later events, a ColangError must be observable, nothing may escape process_events.
+Part G (two-flow fault families, incl. internal events sent with missing / ill-typed arguments), part R (periodic
+drives), part X (errors escaping run_to_completion), part P (ping-pong through the event cap).
+Parts E / V / D live in c10_more.py: error texts with special characters x error-reporting flows (library and
+`escape(...)` idioms), the same under the library's verbose log handler, parameter defaults that raise x how the
+flow is started / restarted.
 """
 from __future__ import annotations
 
@@ -587,13 +592,43 @@ def g_programs():
         src = ("flow helper\n  match E2()\n  send HelperDone()\n\n" + f"flow a\n  match E1()\n  {stmt}\n  match Never()\n\n"
                + _G_BY + "\n" + _G_WATCH + "\n" + _g_main(["activate a"]))
         out.append((f"internal-event-without-optional-arguments:{stmt.split('(')[0].split()[1]}:{'unknown-flow' if 'nosuch' in stmt else 'helper'}", src, None))
+    # (e) internal events sent without a required argument or with an argument of the wrong type: `send` accepts them,
+    #     the error is raised when the queued event is taken from the internal queue
+    for ev in INTERNAL_EVENT_NAMES:
+        for label, args in ILL_FORMED_ARGUMENTS:
+            if ev == "StartFlow" and label.endswith("-and-no-flow_id"):
+                continue  # (= flow_id-missing)
+            src = ("flow helper\n  match E2()\n  send HelperDone()\n\n" + f"flow a\n  match E1()\n  send {ev}({args})\n  match Never()\n\n"
+                   + _G_BY + "\n" + _G_WATCH + "\n" + _g_main(["activate a", "activate helper"]))
+            out.append((f"internal-event-with-ill-formed-arguments:{ev}:{label}", src, None))
     return out
+
+
+INTERNAL_EVENT_NAMES = ("StartFlow", "StopFlow", "FinishFlow", "FlowStarted", "FlowFinished", "FlowFailed", "UnhandledEvent")
+ILL_FORMED_ARGUMENTS = [
+    ("no-arguments", ""),
+    ("flow_id-missing", 'flow_instance_uid="nosuch"'),
+    ("flow_id-unhashable", "flow_id={}"),
+    ("flow_id-unhashable", "flow_id=[1]"),
+    ("flow_id-not-a-string", "flow_id=1"),
+    ("flow_id-not-a-string", "flow_id=None"),
+    ("flow_instance_uid-unhashable", 'flow_id="helper", flow_instance_uid={}'),
+    ("flow_instance_uid-unhashable", 'flow_id="helper", flow_instance_uid=[1]'),
+    ("flow_instance_uid-not-a-string", 'flow_id="helper", flow_instance_uid=1'),
+    ("flow_instance_uid-not-a-string", 'flow_id="helper", flow_instance_uid=None'),
+    ("flow_instance_uid-unhashable-and-no-flow_id", "flow_instance_uid={}"),
+    ("flow_instance_uid-not-a-string-and-no-flow_id", "flow_instance_uid=1"),
+]
 
 
 def g_task(task):
     name, src, err_on, maxlen = task
     res = {"programs": 1, "histories": 0, "events": 0, "bystander_reactions": 0, "viol": []}
     info0 = {"engine": "C10-F", "source": src, "family": name}
+    desc = ""
+    if name.startswith("internal-event-with-ill-formed-arguments:"):
+        stmt = next((l.strip() for l in src.splitlines() if l.strip().startswith("send " + name.split(":")[1] + "(")), "")
+        desc = f"flow a reacts to E1 with `{stmt}`; "
     try:
         rt = _runtime(src)
     except Exception as e:
@@ -623,7 +658,7 @@ def g_task(task):
                     loop = asyncio.new_event_loop()
                     continue
                 except Exception as e:
-                    res["viol"].append((f"exception-escapes-process_events:{name}", f"{type(e).__name__}: {e}", info))
+                    res["viol"].append((f"exception-escapes-process_events:{name}", f"{desc}{type(e).__name__}: {e}", info))
                     continue
                 finally:
                     signal.alarm(0)
@@ -636,7 +671,7 @@ def g_task(task):
                         res["bystander_reactions"] += 1
                     got_by = [o for o in outs[i] if o.startswith("By")]
                     if got_by != exp_by:
-                        res["viol"].append((f"bystander-disturbed:{name}", f"history {[x['type'] for x in hist]}: on event #{i} {h['type']} the unrelated flow emitted {got_by}, expected {exp_by}", info))
+                        res["viol"].append((f"bystander-disturbed:{name}", f"{desc}history {[x['type'] for x in hist]}: on event #{i} {h['type']} the unrelated flow emitted {got_by}, expected {exp_by}", info))
                         break
                 else:
                     if err_on is not None:
@@ -797,7 +832,11 @@ def run(rep, tier):
     for k, v in xs.items():
         rep.set("escaping_error_" + k, v)
     gs = {"programs": 0, "histories": 0, "events": 0, "bystander_reactions": 0}
-    for r in par.pmap(g_task, [(n, src, err_on, 2 if tier == "quick" else 3) for n, src, err_on in g_programs()]):
+    gts = [(n, src, err_on, 2 if tier == "quick" else 3) for n, src, err_on in g_programs()
+           # (quick: the flow events FlowStarted / ... / UnhandledEvent only without arguments and with an ill-typed flow_id)
+           if not (tier == "quick" and n.startswith("internal-event-with-ill-formed-arguments:") and n.split(":")[1] not in ("StartFlow", "StopFlow", "FinishFlow")
+                   and n.split(":")[2] not in ("no-arguments", "flow_id-not-a-string"))]
+    for r in par.pmap(g_task, gts):
         for k in gs:
             gs[k] += r[k]
         for sig, what, info in r["viol"]:
@@ -818,6 +857,13 @@ def run(rep, tier):
         act["programs"] += r["programs"]; act["histories"] += r["histories"]
         for sig, what, info in r["viol"]:
             rep.violation(sig, what, info)
+    # ---- parts E / V / D (error texts with special characters, verbose mode, faulty parameter defaults)
+    from vf.props import c10_more
+    more = c10_more.run_more(rep, tier, par)
+    for a in more.values():
+        agg["events"] += a.get("events", 0)
+        agg["fault_reached"] += a.get("fault_reached", 0)
+        agg["bystander_reactions"] += a.get("bystander_reactions", 0)
     rep.set("active_flow_programs", act["programs"])
     rep.set("active_flow_histories", act["histories"])
     rep.set("fault_programs", agg["programs"])
@@ -860,6 +906,9 @@ def replay(rp):
                 break
         print(rp["what"])
         return 0
+    if rp.get("engine") == "C10-M":
+        from vf.props import c10_more
+        return c10_more.replay(rp)
     if rp.get("engine") == "C10-X":
         r = x_task((rp["watcher"], rp["watcher_start"], rp["position"], len(rp["history"])))
         print(rp["source"])
